@@ -33,7 +33,7 @@ for offs in ( [ 2 ], [ 0 ], [ 4, 2 ], [ 6, 4 + len( rd ) + 9 ] ):
     reqs = d.get( 'multiple.request', [] )
     fed = [ bytes( bytearray( r.get( 'input', b'' ))) for r in reqs ]
     # a member located by an invalid offset was nevertheless recognised as a request ( it carries more than the raw input / status )
-    served = [ i for i, r in enumerate( reqs ) if set( k.split( '.' )[0] for k in r.keys()) - { 'input', 'service', 'status', 'status_ext' }
+    served = [ i for i, r in enumerate( reqs ) if set( k.split( '.' )[0] for k in r.keys() if not ( k.split( '.' )[0] == 'path' and not r.get( 'path.segment' ))) - { 'input', 'service', 'status', 'status_ext' }
                and not ( 2 + 2 * len( offs ) <= offs[i] <= 2 + 2 * len( offs ) + len( payload )) ]
     print( 'offsets %-10r -> %d member replies, statuses %r%s' % ( offs, len( reqs ), [ r.get( 'status' ) for r in reqs ], '   PARSED FROM AN INVALID OFFSET: member %r' % served if served else '' ))
     bad += bool( served ) or len( reqs ) != len( offs )
